@@ -17,4 +17,6 @@ let table : (string * (BinNums.coq_N list -> BinNums.coq_N list)) list = [
   ("mon_c13", MonSession.mon_c13);
   ("mon_c14", MonSession.mon_c14);
   ("mon_c05", MonSession.mon_c05);
+  ("mon_pair", MonPair.mon_pair);
+  ("chk_pair", MonPair.chk_pair);
 ]
